@@ -110,8 +110,9 @@ pub open spec fn c08_strict() -> bool {
     ensures r == feerate_sat(total_fee as nat, weight as nat),
 //@end
 
-//@fn vls-core/src/util/transaction_utils.rs :: - :: is_tx_non_malleable mode=trusted
-    ensures r == all_true_flags(segwit_flags@),
+//@fn vls-core/src/util/transaction_utils.rs :: - :: is_tx_non_malleable props=C08 optiters
+    // a flag vector of another length than the inputs aborts (assert_eq)
+    ensures r == all_true_flags(segwit_flags@), tx.input@.len() == segwit_flags@.len(),           //[C08.non-malleable.all-inputs-segwit]
 //@end
 
 impl SimpleValidator {
